@@ -28,6 +28,7 @@ from modbuild import *
 from modcorpus import run_mod
 from c06_util import *
 import c02 as C02
+import prima_layer          # ENUMERATED / BIT STRING layer (lib/prima_layer.py, notes/design/PrimA.md)
 import zlib
 
 INC = os.path.join(HARNESS, "moddrv_c06.inc")
@@ -851,6 +852,7 @@ def main(tier):
           "extraction: ExtrOcamlBasic only; OCaml 4.13.1", "lib/modgen.py (generator, effective tags), lib/c06_util.py (BER writer, permutations, XER variants, hand-written modules)",
           "harness/moddrv.c + harness/moddrv_c06.inc (in-memory mutator walks the structure through the descriptor tables); lib/modbuild.py; gcc + ASan/UBSan",
           "qsort is modelled as insertion sort: the theorems show the result does not depend on which sorting algorithm is used only where the order is antisymmetric on the keys"]
+    prima_layer.run_c06(run, rng, tier)
     # violations with a failing input first (vlib prints one line per kind among the first 20)
     run.violations.sort(key=lambda v: (bool(v.get("no_failing_input_found")), v["kind"].startswith("correspondence")))
     if os.environ.get("C06_DEBUG"):
